@@ -131,6 +131,11 @@ def enclosed_rules(facts, rep):
         comps = calls_matching(f, r"Path::components$")
         g1 = bool(comps) and norm(ex.operand(comps[0][1]["args"][0], (comps[0][0], None))) == ("field", ("arg", 1, "self"), "file_name")
         ok &= bool(rep.check(g1, rule, "walks-own-name", w, "components() of self.file_name", "the component walk is over something other than the entry's name"))
+        # the NUL test looks at the same string: the decoded name (not the raw bytes kept next to it, which a parser may leave empty)
+        nul = [norm(ex.operand(t_["args"][0], (b_, None))) for b_, t_ in f.calls() if re.search(r"::contains$", t_.get("callee") or "")]
+        g0 = bool(nul) and all(v_ == ("field", ("arg", 1, "self"), "file_name") or
+                               (v_[0] == "call" and re.search(r"as_bytes$|as_str$|Deref::deref$", v_[1]) and v_[2] and v_[2][0] == ("field", ("arg", 1, "self"), "file_name")) for v_ in nul)
+        ok &= bool(rep.check(g0, rule, "nul-tested-on-own-name", w, "contains('\\0') of self.file_name", "the NUL test of enclosed_name looks at %s, not at the name it validates" % [show(v_)[:50] for v_ in nul]))
         somes = [norm(ex.operand(s_["rv"]["ops"][0], (b_, si_))) for b_, si_, s_ in f.stmts()
                  if s_["k"] == "assign" and s_["place"]["l"] == 0 and not s_["place"]["p"] and s_["rv"]["k"] == "agg" and s_["rv"].get("variant") == "Some" and s_["rv"]["ops"]]
         g2 = bool(somes) and all(".file_name" in tokens(v_) and not any(x[0] == "call" and not re.search(r"Path::new$|Deref|AsRef", x[1]) for x in walk(v_)) for v_ in somes)
